@@ -30,7 +30,10 @@
  * page of it is ever instantiated); counts beyond it (2^40, SSIZE_MAX) use the
  * same base address.
  *
- * The oracle is the one of c17_endpoints.c, on 64-bit counters.
+ * The oracle is the one of c17_endpoints.c, on 64-bit counters (one endpoint:
+ * a hard driver error is returned unchanged; plumbing: a failing call returns
+ * an error, whichever; at-most forms: a short positive count is right whenever
+ * a hard answer followed progress).
  */
 #include "mc.h"
 
@@ -349,15 +352,6 @@ struct casep {
 static bool intr_code(ssize_t rc) { return rc == -EINTR || rc == -EAGAIN; }
 static bool intr_seen(ssize_t rc) { return (rc == -EINTR && E.seen_eintr) || (rc == -EAGAIN && E.seen_eagain); }
 
-static bool
-hard_ok(ssize_t rc)
-{
-    if (rc == E.first_hard)
-        return true;
-    return E.first_hard == -ENODATA && E.first_scripted_hard != 0 && E.first_scripted_hard != E.first_hard
-        && rc == E.first_scripted_hard;
-}
-
 static const char *
 class_ok(void)
 {
@@ -494,8 +488,10 @@ run_case(const struct casep *c, bool *nontrivial)
             return "violation";
         }
         if (rc >= 0) {
-            if (E.first_hard != 0 && !(E.first_scripted_hard == 0 && moved > 0)) {
-                mc_fail("C17/hard-error-unchanged", "driver answered %d, %s returned %zd", E.first_hard, OPNAME[op], rc);
+            /* a hard answer after some progress may be reported as the short
+             * positive count (read(2)/write(2)); with nothing moved the error is owed */
+            if (E.first_hard != 0 && moved == 0) {
+                mc_fail("C17/hard-error-unchanged", "driver answered %d, %s moved nothing and returned %zd", E.first_hard, OPNAME[op], rc);
                 return "violation";
             }
             if ((uint64_t)rc != moved) {
@@ -545,9 +541,13 @@ run_case(const struct casep *c, bool *nontrivial)
         return "violation";
     }
     if (op_drain(op)) {
-        if (E.first_scripted_hard != 0) {
-            if (rc != E.first_scripted_hard)
-                mc_fail("C17/hard-error-unchanged", "driver answered %d, %s returned %zd", E.first_scripted_hard, OPNAME[op], rc);
+        /* plumbing: "when it fails, an error is returned" (any negative code); a
+         * drain that went on after a hard answer and moved the whole stream did
+         * not fail */
+        if (E.first_scripted_hard != 0 && !(K->moved == c->L && S->moved == c->L)) {
+            if (rc >= 0)
+                mc_fail("C17/failure-is-error", "driver answered %d, %s stopped after %llu of %llu octets and returned %zd",
+                        E.first_scripted_hard, OPNAME[op], (unsigned long long)K->moved, (unsigned long long)c->L, rc);
             return "huge-drain-hard-error";
         }
         if (K->moved != c->L || S->moved != c->L) {
@@ -567,10 +567,14 @@ run_case(const struct casep *c, bool *nontrivial)
                     (unsigned long long)c->n, (unsigned long long)S->moved, (unsigned long long)K->moved);
             return "violation";
         }
-        if (E.first_hard != 0) {
-            if (!hard_ok(rc))
-                mc_fail("C17/hard-error-unchanged", "driver answered %d, %s returned %zd", E.first_hard, OPNAME[op], rc);
+        /* after a hard answer: a negative return reports the failure (any code); a
+         * non-negative one is only right if the call did not fail after all */
+        if (E.first_hard != 0 && rc < 0)
             return E.first_hard == -ENODATA && E.first_scripted_hard == 0 ? "huge-source-end" : "huge-hard-error";
+        if (E.first_hard != 0 && !((uint64_t)rc == c->n && K->moved == c->n && S->moved == c->n)) {
+            mc_fail("C17/failure-is-error", "driver answered %d, %s(n=%llu) returned %zd with %llu octets in the sink (%llu taken from the source)",
+                    E.first_hard, OPNAME[op], (unsigned long long)c->n, rc, (unsigned long long)K->moved, (unsigned long long)S->moved);
+            return "violation";
         }
         if (rc < 0 || (uint64_t)rc != c->n) {
             if (intr_code(rc))
@@ -602,8 +606,8 @@ run_case(const struct casep *c, bool *nontrivial)
             return "violation";
         }
         if (rc >= 0) {
-            if (E.first_hard != 0 && !(E.first_scripted_hard == 0 && K->moved > 0)) {
-                mc_fail("C17/hard-error-unchanged", "driver answered %d, %s returned %zd", E.first_hard, OPNAME[op], rc);
+            if (E.first_hard != 0 && K->moved == 0) {
+                mc_fail("C17/failure-is-error", "driver answered %d, nothing reached the sink, %s returned %zd", E.first_hard, OPNAME[op], rc);
                 return "violation";
             }
             if ((uint64_t)rc != K->moved) {
@@ -618,11 +622,8 @@ run_case(const struct casep *c, bool *nontrivial)
             }
             return rc == 0 ? "huge-plumb-moved-none" : class_ok();
         }
-        if (E.first_hard != 0) {
-            if (!hard_ok(rc))
-                mc_fail("C17/hard-error-unchanged", "driver answered %d, %s returned %zd", E.first_hard, OPNAME[op], rc);
+        if (E.first_hard != 0) /* "when it fails, an error is returned": any negative code */
             return E.first_hard == -ENODATA && E.first_scripted_hard == 0 ? "huge-source-end" : "huge-hard-error";
-        }
         if (intr_code(rc) && intr_seen(rc)) {
             if (S->moved != K->moved)
                 mc_fail("C17/no-loss", "%s passed on the interruption %zd after taking %llu octets from the source (%llu reached the sink)",
